@@ -23,6 +23,12 @@ CLAIMED = {
  "C08": ("seqmc", "explicit-state search over timeout-message sequences on a real wired Synchronizer (successor = replay on a fresh replica + 1 message), canonical-state merging, oracle = per-view set of correctly signed senders",
          "All sequences over an alphabet of 15-25 timeout messages (every sender x views {v0-1,v0,v0+1,v0+50}, own local timeout, relayed / wrong-view / unsigned view signatures, garbage / absent message signatures and missing QC under the aggregate rule, sync info carrying a TC) delivered to one real replica: unmerged to depth 3 (4) and with canonical-state merging to depth 5-7 (7-9 thorough), both timeout rules, replica at and ahead of the stale view, cache on/off, n=4 (n=7 thorough). Every emitted certificate is verified by all other replicas and fed to a fresh replica.",
          "EdDSA only; the replica under test is never the next leader; repeated certificates for an already certified view are don't-care.", "§4 C08"),
+ "C02": ("enum", "bounded-exhaustive enumeration of crafted certificates (signature-descriptor sequences, honest subsets, single and double structural mutations) against validity known by construction",
+         "QC, TC, aggregate QC (+ reported high QC) and proposals via VerifyAnyQC, for ECDSA/EdDSA/BLS12, cache 0/1/8, n in 1..4 exhaustively over descriptor sequences up to length q+1 (valid, foreign-message, relabelled, unknown signer, empty) x claimed view/hash variants, n=7 (5..13 thorough) over all honest subsets of size q-1/q/n and all single+double mutations; each certificate verified cold and warm by a replica that did not build it; completeness through the real Create* API at every replica.",
+         "Validity of each signature entry is known by construction; panics are treated as rejection here and reported under C10; BLS limited to n<=7.", "§4 C02"),
+ "C11": ("seqmc", "explicit-state search over request sequences issued to a cached and an uncached authority (state = LRU content and order), differential verdict oracle",
+         "Every sequence up to depth 3 (4 thorough) over ~55 requests (sign, verify with replayed/relabelled signatures and other messages, batch-verify with same-concatenation / swapped / other-id batches, combine, QC/TC/AggQC verification incl. relabelled views and swapped QCs, nil signatures) for capacities 1..4 (1..8), all three schemes (BLS one level shallower).",
+         "The uncached authority is the reference; signatures are produced once and given to both.", "§4 C11"),
 }
 PENDING = {}  # id -> reason (properties not claimed)
 
